@@ -247,24 +247,32 @@ class Interp:
                 pass
         return self.ev(e.body if self.st.decide(c) else e.orelse, fr)
 
-    def ev_noraise(self, e, fr):
-        """evaluate a simple expression; abort (raise _WouldFork) if it would fork or raise"""
+    def ev_noraise(self, e, fr, forced=False):
+        """evaluate an expression; abort (raise _WouldFork) if it would fork or raise.
+        forced=True: a condition decided by the current solver context counts as not forking."""
         st = self.st
-        saved = st.decide
         def nofork(c):
             if isinstance(c, bool):
                 return c
             cc = z3.simplify(zbool(c))
             if z3.is_true(cc): return True
             if z3.is_false(cc): return False
+            if forced:
+                ft, ff = st._feasible(cc), st._feasible(z3.Not(cc))
+                if ft and not ff: return True
+                if ff and not ft: return False
             raise _WouldFork()
+        prev = st.__dict__.get('decide')
         st.decide = nofork
         try:
             return self.ev(e, fr)
         except Raised:
             raise _WouldFork()
         finally:
-            del st.decide
+            if prev is None:
+                del st.decide
+            else:
+                st.decide = prev
 
     def e_BoolOp(self, e, fr):
         is_and = isinstance(e.op, ast.And)
@@ -277,13 +285,12 @@ class Interp:
                     return v
                 v = self.ev(vals[idx], fr)
                 continue
-            # symbolic left operand
+            # symbolic left operand: combine without forking only when every operand is a boolean
+            # (`a or b` yields an operand, not its truth value)
             rest = vals[idx:]
-            if all(is_simple(x) for x in rest):
-                # evaluate the remaining operands under the assumption that makes them reachable
+            if isinstance(v, (bool, SBool)) and all(is_simple(x) for x in rest):
                 try:
                     acc = zbool(t)
-                    ok = True
                     parts = [acc]
                     guard = acc if is_and else z3.Not(acc)
                     for x in rest:
@@ -292,15 +299,16 @@ class Interp:
                             w = self.ev_noraise(x, fr)
                         finally:
                             self.st.solver.pop()
-                        wt = self.truth(w)
-                        wz = zbool(wt)
+                        if not isinstance(w, (bool, SBool)):
+                            raise _WouldFork()
+                        wz = zbool(w)
                         parts.append(wz)
                         guard = z3.And(guard, wz) if is_and else z3.And(guard, z3.Not(wz))
                     return mk(z3.And(*parts) if is_and else z3.Or(*parts))
                 except _WouldFork:
                     pass
             if self.st.decide(t) != is_and:
-                return v if not isinstance(v, (SBool, SInt)) else (not is_and)
+                return v
             v = self.ev(vals[idx], fr)
         return v
 
@@ -741,7 +749,7 @@ class Interp:
             r = V.seq_slice(list(base), lo, hi)
             if r.items is not None: return tuple(r.items)
         if isinstance(base, Opaque):
-            return Opaque('slice-of-' + base.what)
+            return Opaque('str') if base.what == 'str' else Opaque('slice-of-' + base.what)
         raise Unsupported('slice of %r' % (base,))
 
     def getitem(self, base, idx):
@@ -789,6 +797,8 @@ class Interp:
                 r = self.cfg.opaque_attr(self, base, ('[]', idx))
                 if r is not NotImplemented:
                     return r
+            if base.what == 'str':
+                return Opaque('str')
             return Opaque('item-of-' + base.what)
         if base is None:
             raise Raised('TypeError')
@@ -848,22 +858,29 @@ class Interp:
         if len(e.generators) == 1 and not e.generators[0].ifs:
             g = e.generators[0]
             src = self.ev(g.iter, fr)
-            if isinstance(src, Seq) and src.items is None and isinstance(g.target, ast.Name) and is_simple(e.elt):
-                # map over a symbolic-length sequence: element function composed lazily (DESIGN 2.2)
-                tname = g.target.id
-                def at(k, src=src):
-                    f3 = Frame(fr.module, fr.cls, fr.func, {tname: src.at(k)}, parent=fr)
-                    return self.ev(e.elt, f3)
-                probe = at(mk(z3.Int(self.st.fresh_name('probe'))))
-                elem = 'bool' if isinstance(probe, (bool, SBool)) else 'int'
-                return Seq('list', src.n, at=at, elem=elem)
-            if isinstance(src, RangeV) and not src.concrete() and isinstance(g.target, ast.Name) and is_simple_or_index(e.elt):
-                tname = g.target.id
-                n = src.count()
-                def at(k, src=src):
-                    f3 = Frame(fr.module, fr.cls, fr.func, {tname: src.at(k)}, parent=fr)
-                    return self.ev_noraise(e.elt, f3) if False else self.ev(e.elt, f3)
-                return Seq('list', n if isinstance(n, int) else zint(n), at=at, elem='int')
+            symsrc = (isinstance(src, Seq) and src.items is None) or (isinstance(src, RangeV) and not src.concrete())
+            if symsrc and isinstance(g.target, ast.Name):
+                # map over a symbolic-length source: the element expression is evaluated once for a fresh
+                # index j under 0 <= j < n (no fork, no raise allowed there), then j is substituted (DESIGN 2.2)
+                st = self.st
+                n = src.length() if isinstance(src, Seq) else src.count()
+                j = z3.Int(st.fresh_name('cj'))
+                st.solver.push()
+                st.solver.add(j >= 0, j < zint(n))
+                try:
+                    f3 = Frame(fr.module, fr.cls, fr.func, {g.target.id: src.at(mk(j))}, parent=fr)
+                    val = self.ev_noraise(e.elt, f3, forced=True)
+                except _WouldFork:
+                    raise Unsupported('comprehension element may fork or raise for some index; needs a loop instead')
+                finally:
+                    st.solver.pop()
+                if not V._isnum(val):
+                    raise Unsupported('comprehension over symbolic source with non-numeric element')
+                isb = isinstance(val, (bool, SBool))
+                term = zbool(val) if isb else zint(val)
+                def at(k, term=term, j=j):
+                    return mk(z3.substitute(term, (j, zint(k))))
+                return Seq('list', n if isinstance(n, int) else zint(n), at=at, elem='bool' if isb else 'int')
         out = []
         def rec(gi):
             if gi == len(e.generators):
@@ -1322,7 +1339,7 @@ class Interp:
                     self.setattr(base, name, V.seq_concat(cur, rhs)); return
                 cur.extend(self.iterate(rhs)); return
             if isinstance(cur, Seq) and cur.kind == 'list' and isinstance(s.op, ast.Add):
-                new = V.seq_concat(cur, rhs)
+                new = V.seq_concat(cur.copy(), rhs)
                 cur.items, cur.n, cur._at, cur.elem = new.items, new.n, new._at, new.elem
                 return
             self.setattr(base, name, self.binop(type(s.op), cur, rhs, fr))
@@ -1592,8 +1609,11 @@ class Interp:
                         elif isinstance(b, ast.Attribute): attrs.append(b)
         return names, attrs
 
-    def havoc_value(self, v, hint):
+    def havoc_value(self, v, hint, elem=None):
         st = self.st
+        if elem is not None and isinstance(v, (Seq, list)):
+            s = to_seq(v)
+            return Seq.fresh(s.kind, hint, elem=elem)
         if isinstance(v, (bool, SBool)):
             return mk(z3.Bool(st.fresh_name(hint)))
         if isinstance(v, (int, SInt)):
@@ -1615,7 +1635,7 @@ class Interp:
             if nm2 in fr.env:
                 if nm2 in getattr(ann, 'keep', ()):
                     continue
-                fr.env[nm2] = self.havoc_value(fr.env[nm2], nm2)
+                fr.env[nm2] = self.havoc_value(fr.env[nm2], nm2, getattr(ann, 'elem', {}).get(nm))
         seen = set()
         for a in attrs:
             key = ast.unparse(a)
@@ -1628,7 +1648,14 @@ class Interp:
             name = mangle(a.attr, fr.cls)
             if isinstance(base, Obj) and name in base.fields:
                 cur = base.fields[name]
-                if isinstance(cur, Seq) and cur.kind == 'list':
+                el = getattr(ann, 'elem', {}).get(name)
+                if el is not None and isinstance(cur, (Seq, list)):
+                    new = self.havoc_value(cur, name, el)
+                    if isinstance(cur, Seq):
+                        cur.items, cur.n, cur._at, cur.elem = None, new.n, new._at, new.elem
+                    else:
+                        base.fields[name] = new
+                elif isinstance(cur, Seq) and cur.kind == 'list':
                     new = self.havoc_value(cur, name)
                     cur.items, cur.n, cur._at, cur.elem = None, new.n, new._at, new.elem
                 elif isinstance(cur, list):
